@@ -226,8 +226,9 @@ theorem dataOp_cont {tx : Tx} (h : tx.Inv) (op : Op) : tx.Continues (dataOp tx o
 structure Sys.Inv (s : Sys) : Prop where
   dbSorted : SMap.Sorted s.db
   batch : ∀ bt, s.w = some bt → bt.Inv
+  snapSorted : ∀ snap, s.reader = some snap → SMap.Sorted snap
 
-theorem Sys.inv_init : Sys.Inv {} := ⟨SMap.sorted_nil, by intro bt h; cases h⟩
+theorem Sys.inv_init : Sys.Inv {} := ⟨SMap.sorted_nil, (by intro bt h; cases h), (by intro sn h; cases h)⟩
 
 theorem Sys.step_inv {s : Sys} (h : s.Inv) (op : Op) : (s.step op).1.Inv := by
   have hid : s.Inv := h
@@ -237,21 +238,29 @@ theorem Sys.step_inv {s : Sys} (h : s.Inv) (op : Op) : (s.step op).1.Inv := by
     simp only
     split
     · exact hid
-    · exact ⟨h.dbSorted, by intro bt hb; simp at hb; subst hb; exact Batch.inv_empty⟩
-  | beginR => simp only; split <;> first | exact hid | exact ⟨h.dbSorted, h.batch⟩
+    · exact ⟨h.dbSorted, (by intro bt hb; simp at hb; subst hb; exact Batch.inv_empty), h.snapSorted⟩
+  | beginR =>
+    simp only
+    split
+    · exact hid
+    · exact ⟨h.dbSorted, h.batch, (by intro sn hs; simp at hs; subst hs; exact h.dbSorted)⟩
   | commit =>
     simp only
     cases hw : s.w with
     | none => exact hid
     | some bt =>
-      refine ⟨?_, by intro bt' hb; cases hb⟩
+      refine ⟨?_, (by intro bt' hb; cases hb), h.snapSorted⟩
       exact Tx.commit_sorted (tx := { readOnly := false, db := s.db, b := bt }) ⟨h.dbSorted, h.batch bt hw⟩
   | rollback =>
     simp only
     cases hw : s.w with
     | none => exact hid
-    | some bt => exact ⟨h.dbSorted, by intro bt' hb; cases hb⟩
-  | endR => simp only; split <;> first | exact hid | exact ⟨h.dbSorted, h.batch⟩
+    | some bt => exact ⟨h.dbSorted, (by intro bt' hb; cases hb), h.snapSorted⟩
+  | endR =>
+    simp only
+    split
+    · exact ⟨h.dbSorted, h.batch, (by intro sn hs; cases hs)⟩
+    · exact hid
   | reopen => simp only; split <;> exact hid
   | probe => exact hid
   | raw => exact hid
@@ -266,7 +275,7 @@ theorem Sys.step_inv {s : Sys} (h : s.Inv) (op : Op) : (s.step op).1.Inv := by
       | some bt =>
         simp only
         have htx : Tx.Inv { readOnly := false, db := s.db, b := bt } := ⟨h.dbSorted, h.batch bt hw⟩
-        refine ⟨h.dbSorted, ?_⟩
+        refine ⟨h.dbSorted, ?_, h.snapSorted⟩
         intro bt' hb
         simp at hb; subst hb
         exact (dataOp_cont htx _).1.batch
